@@ -155,7 +155,7 @@ func runC28(in *bufio.Scanner, out *bufio.Writer) {
 			res := w.safeUnlock(s.key, s.id)
 			s.released = true
 			if res != "panic" {
-				if ev, ok := w.waitFor("lock.rm", s.id); !ok {
+				if ev, ok := w.waitFor("lock.rm", s.qid); !ok {
 					res = "unexpected-" + ev.name
 				}
 			}
@@ -172,17 +172,17 @@ func runC28(in *bufio.Scanner, out *bufio.Writer) {
 			if w.inQueue(s) {
 				res = "removed"
 				s.released = true
-				if _, ok := w.waitTTL(s.id); !ok {
+				if _, ok := w.waitTTL(s.qid); !ok {
 					res = "unexpected-timeout"
 				} else {
-					w.release(w.ttlWait, s.id)
-					if ev, ok := w.waitFor("lock.rm", s.id); !ok {
+					w.release(w.ttlWait, s.qid)
+					if ev, ok := w.waitFor("lock.rm", s.qid); !ok {
 						res = "unexpected-" + ev.name
 					}
 				}
 				res += w.settle(s.key)
 			} else {
-				w.release(w.ttlWait, s.id)
+				w.release(w.ttlWait, s.qid)
 			}
 			fmt.Fprintf(out, "expire %d %s %s\n", s.n, res, tail())
 		case "cancel":
